@@ -242,13 +242,13 @@ def main(ck):
                               "engine/verif_export_c02.go (thin wrappers)"]
     ck.coq_audit(["C02"])
     targets = ["C02/Corr.vo"]
-    have_proofs = os.path.exists(os.path.join(ck.coq, "C02", "Props.v"))
+    have_proofs = os.path.exists(os.path.join(ck.verif, "coq", "C02", "Props.v"))
     if have_proofs:
         targets.append("C02/Proofs.vo")
     ok = ck.coq_build(targets)
     if ok and have_proofs:
         props = ["C02/Props.v"]
-        if os.path.exists(os.path.join(ck.coq, "C02", "Refuted.v")):
+        if os.path.exists(os.path.join(ck.verif, "coq", "C02", "Refuted.v")):
             props.append("C02/Refuted.v")
         ck.coq_props(props)
     binp = ck.go_build("./cmd/c02", "c02")
